@@ -15,6 +15,7 @@ C12 — definitions that only this property needs (core Lean only):
 import FairModel.Model.MetricPool
 import FairModel.Model.Aggregate
 import FairModel.Generated.FairNamed
+import FairModel.Generated.PopulateSrc
 
 namespace Perm
 open Frame MetricPool Aggregate
@@ -45,11 +46,14 @@ def scalarOf : Option (List (Key × XR)) → Option XR
   | some [(_, v)] => some v
   | _ => none
 
+/-- the named metrics call `.difference(method=method)` / `.ratio(method=method)` WITHOUT `errors=`: the value used is the
+    default of `MetricFrame.difference` / `MetricFrame.ratio`, lifted from the signature into `Generated/PopulateSrc.lean`
+    (`differenceDefaultErrors` / `ratioDefaultErrors`; `"coerce"` in the pinned source: `C12.src_named_errors_default`) -/
 def metricDifference (m : Metric) (meth : Method) (nsf : Nat) (rows : List (Row Dat)) : Option XR :=
-  scalarOf (difference meth .coerce (frameOf m nsf rows))
+  scalarOf (difference meth PopulateSrc.differenceDefaultErrors (frameOf m nsf rows))
 
 def metricRatio (m : Metric) (meth : Method) (nsf : Nat) (rows : List (Row Dat)) : Option XR :=
-  scalarOf (ratio meth .coerce (frameOf m nsf rows))
+  scalarOf (ratio meth PopulateSrc.ratioDefaultErrors (frameOf m nsf rows))
 
 inductive Agg where
   | worst | mean
